@@ -76,6 +76,8 @@ type FuncContract struct {
 	PrefixOnly   bool // obligations are collected until the translation leaves the subset; the rest is reported as not verified
 	View         string
 	Views        []string          // alternative (abstract) contracts of callees this unit is verified against
+	ReadsOnly    map[string][]string // parameter name -> the only fields of its pointee the call tree may read
+	NoWrites     bool                // the call tree performs no store to non-local memory (mechanical scan)
 	AtStore      map[string][]Clause // field name -> condition on the stored `value` at every store to that field
 	AtCall       map[string][]Clause // callee name -> conditions that must hold in the caller right before each call
 	AllowExtern  []string
@@ -159,7 +161,7 @@ func newContracts() *Contracts {
 		Ghosts: map[string]*GhostVar{}, Externs: map[string]*FuncContract{}, Writers: map[string][]string{}, Scenarios: map[string]*Scenario{}, ImportsByPkg: map[string][]string{}}
 }
 
-var kwRe = regexp.MustCompile(`^(import|define|ghost|func|extern|lemma|axiom|fact|scenario|do|establishes|writers|callers-inline|thorough-only|prefix-only|abstract|at-store|callback-modifies|callback-ensures|callback-requires|views|at-call|allow-extern|props|requires|ensures|modifies|nopanic|exact-conversions|trusted|inline|split|loop|assert|use|hyp|concl|timeout|bounded|opaque)\b`)
+var kwRe = regexp.MustCompile(`^(import|define|ghost|func|extern|lemma|axiom|fact|scenario|do|establishes|writers|callers-inline|thorough-only|prefix-only|abstract|at-store|reads-only|no-writes|callback-modifies|callback-ensures|callback-requires|views|at-call|allow-extern|props|requires|ensures|modifies|nopanic|exact-conversions|trusted|inline|split|loop|assert|use|hyp|concl|timeout|bounded|opaque)\b`)
 
 func parseExprSrc(src string) (ast.Expr, error) {
 	// ==> is written as implies(); allow `a ==> b` at top level as sugar, right-assoc
@@ -377,6 +379,17 @@ func (cs *Contracts) LoadContractFile(path string, pkgShort string) error {
 			cur.Views = append(cur.Views, strings.Fields(r.text)...)
 		case "allow-extern":
 			cur.AllowExtern = append(cur.AllowExtern, strings.Fields(r.text)...)
+		case "reads-only":
+			i := strings.Index(r.text, ":")
+			if i < 0 {
+				return fmt.Errorf("%s:%d: reads-only PARAM: fields", path, r.line)
+			}
+			if cur.ReadsOnly == nil {
+				cur.ReadsOnly = map[string][]string{}
+			}
+			cur.ReadsOnly[strings.TrimSpace(r.text[:i])] = strings.Fields(r.text[i+1:])
+		case "no-writes":
+			cur.NoWrites = true
 		case "at-store":
 			f := strings.SplitN(r.text, " requires ", 2)
 			if len(f) != 2 {
